@@ -92,6 +92,19 @@ pub fn auth_of(s: &str) -> AuthMethod {
     }
 }
 
+/// Ticks reported by `MutateTickReceived` (tracking on), as game logic sees them.
+#[derive(Resource, Default)]
+pub struct TickLog(pub Vec<u32>);
+
+fn read_mutate_ticks(
+    mut r: EventReader<bevy_replicon::client::server_mutate_ticks::MutateTickReceived>,
+    mut log: ResMut<TickLog>,
+) {
+    for e in r.read() {
+        log.0.push(e.tick.get());
+    }
+}
+
 /// Builds one app (used for the server and for every client) with the full plugin set.
 pub fn build_app(cfg: &Cfg, extra: &dyn Fn(&mut App)) -> App {
     let mut app = App::new();
@@ -115,8 +128,10 @@ pub fn build_app(cfg: &Cfg, extra: &dyn Fn(&mut App)) -> App {
     if cfg.rel {
         app.sync_related_entities::<ChildOf>().replicate::<ChildOf>();
     }
+    app.init_resource::<TickLog>();
     if cfg.track {
         app.track_mutate_messages();
+        app.add_systems(Update, read_mutate_ticks);
     }
     if cfg.events {
         crate::events::register(&mut app);
